@@ -555,3 +555,8 @@ MUTATIONS += [
 MUTATIONS += [
     dict(id="C16-prune-warmup-only-instant", prop="C16", file=PR, old="    repo.warm_up_wait(prune_plan.repack_packs().into_iter())?;\n", new="    if opts.instant_delete {\n        repo.warm_up_wait(prune_plan.repack_packs().into_iter())?;\n    }\n"),
 ]
+
+MUTATIONS += [
+    dict(id="C16-restore-warmup-for-the-wrong-packs", prop="C16", file=RSF, old="            .filter(|(_, fls)| fls.iter().all(|fl| !fl.matches))", new="            .filter(|(_, fls)| !fls.iter().all(|fl| !fl.matches))"),
+    dict(id="C14-restore-read-drops-source-file", prop="C14", file=RSF, old="                pack_id,\n                from_file,\n                locations: BlobLocations::from_blob_location(bl, name_dests),", new="                pack_id,\n                from_file: None,\n                locations: BlobLocations::from_blob_location(bl, name_dests),"),
+]
